@@ -54,16 +54,17 @@ type recSink struct {
 	tree      map[string]recEntry
 	calls     int
 	targetSig int32
-	sawTarget string // a call that carried the target cluster's signature
-	keyOnly   bool   // an update replaces the entry at key (as the object-store and local sinks do); else, like
+	sawTarget string         // a call that carried the target cluster's signature
+	updates   map[string]int // UpdateEntry calls per key
+	keyOnly   bool           // an update replaces the entry at key (as the object-store and local sinks do); else, like
 	// the filer sink, it saves the entry under newParentPath
 }
 
-func (r *recSink) GetName() string                                       { return r.name }
+func (r *recSink) GetName() string                                      { return r.name }
 func (r *recSink) Initialize(c util.Configuration, prefix string) error { return nil }
-func (r *recSink) GetSinkToDirectory() string                            { return r.dir }
-func (r *recSink) SetSourceFiler(s *source.FilerSource)                  {}
-func (r *recSink) IsIncremental() bool                                   { return false }
+func (r *recSink) GetSinkToDirectory() string                           { return r.dir }
+func (r *recSink) SetSourceFiler(s *source.FilerSource)                 {}
+func (r *recSink) IsIncremental() bool                                  { return false }
 func (r *recSink) note(what, key string, signatures []int32) {
 	r.calls++
 	for _, sg := range signatures {
@@ -91,7 +92,15 @@ func (r *recSink) CreateEntry(key string, entry *filer_pb.Entry, signatures []in
 func (r *recSink) UpdateEntry(key string, oldEntry *filer_pb.Entry, newParentPath string, newEntry *filer_pb.Entry, deleteIncludeChunks bool, signatures []int32) (bool, error) {
 	r.note("update", key, signatures)
 	key = strings.TrimSuffix(key, "/")
+	if r.updates == nil {
+		r.updates = map[string]int{}
+	}
+	r.updates[key]++
 	if _, ok := r.tree[key]; !ok {
+		if !r.keyOnly {
+			// FilerSink.UpdateEntry looks the entry up first and reports a missing one as (false, lookup error)
+			return false, fmt.Errorf("lookup %s: no entry is found in filer store", key)
+		}
 		return false, nil
 	}
 	// like FilerSink.UpdateEntry: the EXISTING sink entry (its own name) is saved under the handed parent path
@@ -115,7 +124,7 @@ type queued struct {
 // recQueue is the notification.MessageQueue the filer publishes to.
 type recQueue struct{ st *replState }
 
-func (q recQueue) GetName() string                                       { return "verif" }
+func (q recQueue) GetName() string                                      { return "verif" }
 func (q recQueue) Initialize(c util.Configuration, prefix string) error { return nil }
 func (q recQueue) SendMessage(key string, message proto.Message) error {
 	if m, ok := message.(*filer_pb.EventNotification); ok {
@@ -144,6 +153,7 @@ type replState struct {
 	seen2, seen2l []int64 // TsNs of the events each subscriber has processed (resume points)
 	sibling       bool    // the history has touched a sibling whose name extends the watched directory's name
 	preLocal      map[string]bool
+	lost1         map[string]int // files the filer-like target has lost (or never had): update count of the sink at that moment
 }
 
 func (s *sess) startRepl() {
@@ -244,6 +254,31 @@ func (s *sess) doRepl(st *simkit.Step) {
 		r.Log("redelivery: the last %d events will be delivered again", k)
 		r.Abs("redeliver")
 		r.Fault("redelivery")
+		return
+	}
+	if st.Str("act") == "lose" {
+		// the target no longer has one of the mirrored files (it lost it, or replication started after the file was
+		// made): nothing is demanded for it until the source changes it again; the UPDATE of an entry the target
+		// lacks must then (re)create it there
+		s.replCatchUp()
+		var files []string
+		for k, e := range rp.rec1.tree {
+			if !e.isDir {
+				files = append(files, k)
+			}
+		}
+		sort.Strings(files)
+		if len(files) > 0 {
+			k := files[simkit.StepRand(st, 5).Intn(len(files))]
+			delete(rp.rec1.tree, k)
+			if rp.lost1 == nil {
+				rp.lost1 = map[string]int{}
+			}
+			rp.lost1[k] = rp.rec1.updates[k]
+			r.Log("the filer-like target loses %s", k)
+			r.Abs("lose")
+			r.Fault("target-lacks-an-entry")
+		}
 		return
 	}
 	s.replCatchUp()
@@ -415,7 +450,26 @@ func (s *sess) checkSinks() {
 		}
 	}
 	// last, the recording sink that saves updates under the parent path it is handed, as the filer sink does
-	if !cmp("Replicator -> recording sink (update saved under the handed parent path, like the filer sink)", tree(rp.rec1), s.projection(rp.target, false), rp.target) {
+	t1, proj1 := tree(rp.rec1), s.projection(rp.target, false)
+	var lostKeys []string
+	for k := range rp.lost1 {
+		lostKeys = append(lostKeys, k)
+	}
+	sort.Strings(lostKeys)
+	for _, k := range lostKeys {
+		_, present := rp.rec1.tree[k]
+		_, wanted := proj1[k]
+		switch {
+		case present || !wanted:
+			delete(rp.lost1, k) // re-created by a later event, or gone at the source as well
+		case rp.rec1.updates[k] > rp.lost1[k]:
+			r.Violate("sink-misses-entry", "update of an entry the target lacks", "Replicator -> filer-like sink: %s was missing in the target; the source has since updated it (%d update events processed) and it is still missing", k, rp.rec1.updates[k]-rp.lost1[k])
+			return
+		default:
+			t1[k] = proj1[k] // still lost, not touched by the source since: nothing demanded
+		}
+	}
+	if !cmp("Replicator -> recording sink (update saved under the handed parent path, like the filer sink)", t1, proj1, rp.target) {
 		return
 	}
 	r.Probe("sinks-compared")
